@@ -278,6 +278,12 @@ Outcome RunC03(RunCtx& ctx)
 	if (!saved.isStd) return Violation("WRONG_EXCEPTION", "archive=" + an + " dir=save", "non-std exception");
 	if (!saved.ok) { ctx.count("save_failed"); return out; }
 	if (archive != A_MSGPACK && bytes.size() >= 3 && bytes.compare(0, 3, "\xEF\xBB\xBF") == 0) { ctx.count("valid_document_starts_with_bom"); return out; }
+	// 1 MessagePack document in 4 is rewritten the way other encoders write it (non-negative integers, keys included, in the signed formats)
+	if (archive == A_MSGPACK && s.chance(sim::L_CFG, 1, 4))
+	{
+		const uint32_t n = MsgPackAsForeignEncoder(bytes);
+		if (n) { ctx.count("foreign_integer_formats", n); sim::probe("document-from-another-encoder"); ctx.note("document re-encoded: " + std::to_string(n) + " non-negative integers moved to the signed formats"); }
+	}
 	if (ctx.describe) ctx.note("bytes(" + std::to_string(bytes.size()) + "): " + sim::hex(bytes, 300));
 	const uint64_t budget = 3000ull * (bytes.size() + 4096);
 	sim::stream_call_budget(64 * (bytes.size() + 4096) * 8);
